@@ -215,14 +215,16 @@ def same_multiset(ctx, A, B, eq=None):
 
     if len(A) != len(B):
         return False
+    custom = eq is not None
     if eq is None:
         def eq(a, b):
             return ctx.all(*[cell_same(ctx, x, y) for x, y in zip(a, b)]) if len(a) == len(b) else False
     used = [False] * len(B)
     rest = []
     for a in A:
+        # (syntactic pre-matching only for plain equality: with a custom relation 'equal values' need not be related)
         for j, b in enumerate(B):
-            if not used[j] and len(a) == len(b) and all(same_term(x, y) for x, y in zip(a, b)):
+            if not custom and not used[j] and len(a) == len(b) and all(same_term(x, y) for x, y in zip(a, b)):
                 used[j] = True
                 break
         else:
@@ -230,7 +232,7 @@ def same_multiset(ctx, A, B, eq=None):
     left = [b for j, b in enumerate(B) if not used[j]]
     if not rest:
         return True
-    if len(rest) > 5:
+    if len(rest) > 6:
         return False
     return ctx.any(*[ctx.all(*[eq(a, b) for a, b in zip(rest, p)]) for p in itertools.permutations(left)])
 
